@@ -235,6 +235,14 @@ def configurations(tier):
         for dest in ('absent', 'present'):
             for w in ('echo', 'minify'):
                 cfgs.append(('build', fmt, dest, w))
+    # the same under --debug and at the default verbosity (what is logged may not change what is written)
+    verbose = [('to_file', 'p8', 'present', 'minify', 'debug'), ('to_file', 'png', 'present', 'echo', 'debug'),
+               ('to_file', 'p8', 'absent', 'format', 'debug'), ('luamin', 'p8', 'present', 'minify', 'debug'),
+               ('build', 'png', 'absent', 'minify', 'debug'), ('luafmt', 'p8', 'overwrite', 'format', 'debug'),
+               ('to_file', 'png', 'absent', 'minify', 'normal'), ('writep8', 'p8', 'present', 'echo', 'normal')]
+    if tier == 'quick':
+        verbose = verbose[:4]
+    cfgs += verbose
     if tier == 'quick':
         keep = [('to_file', 'p8', 'present', 'format'), ('to_file', 'png', 'present', 'minify'),
                 ('to_file', 'p8', 'absent', 'minify'), ('to_file', 'png', 'absent', 'echo'),
@@ -242,7 +250,7 @@ def configurations(tier):
                 ('writep8', 'p8', 'present', 'echo'), ('writep8', 'p8', 'absent', 'echo'), ('writep8', 'png', 'present', 'echo'),
                 ('luamin', 'p8', 'present', 'minify'), ('luamin', 'png', 'absent', 'minify'),
                 ('build', 'p8', 'present', 'minify'), ('build', 'png', 'present', 'echo'), ('build', 'p8', 'absent', 'echo')]
-        cfgs = [c for c in cfgs if c in keep]
+        cfgs = [c for c in cfgs if c in keep or len(c) > 4]
     return cfgs
 
 
@@ -251,7 +259,7 @@ class Env(object):
 
     def __init__(self, cfg):
         self.cfg = cfg
-        entry, fmt, dest, writer = cfg
+        entry, fmt, dest, writer = cfg[:4]
         self.d = tempfile.mkdtemp(prefix='c11_')
         ext = '.p8' if fmt == 'p8' else '.p8.png'
         self.fills = carts.region_fills(1, 5)
@@ -281,7 +289,7 @@ class Env(object):
         self.reset()
 
     def reset(self):
-        entry, fmt, dest, writer = self.cfg
+        entry, fmt, dest, writer = self.cfg[:4]
         if dest == 'absent':
             if os.path.exists(self.dest):
                 os.unlink(self.dest)
@@ -296,7 +304,19 @@ class Env(object):
         from pico8 import tool
         from pico8.game import file as p8file
         m = mods()
-        entry, fmt, dest, writer = self.cfg
+        entry, fmt, dest, writer = self.cfg[:4]
+        # fifth element of a configuration: the tool's verbosity (--debug / default / --quiet); messages go nowhere
+        verb = self.cfg[4] if len(self.cfg) > 4 else 'quiet'
+        from pico8 import util
+        old_verb = util._verbosity
+        cli_flag = {'debug': ['--debug'], 'quiet': ['--quiet'], 'normal': []}[verb]
+        util.set_verbosity({'debug': util.VERBOSITY_DEBUG, 'quiet': util.VERBOSITY_QUIET, 'normal': util.VERBOSITY_NORMAL}[verb])
+        try:
+            return self._run(m, entry, fmt, dest, writer, cli_flag, tool, p8file)
+        finally:
+            util.set_verbosity(old_verb)
+
+    def _run(self, m, entry, fmt, dest, writer, cli_flag, tool, p8file):
         try:
             if entry == 'to_file':
                 g = carts.make_game(self.fills, version=33, code_lines=[CODE],
@@ -308,10 +328,10 @@ class Env(object):
                 p8file.to_file(g, self.dest, lua_writer_cls=None if writer == 'echo' else wcls, lua_writer_args=wargs)
                 return False, None
             if entry in CLI_REWRITERS:
-                args = [entry] + (['--overwrite'] if dest == 'overwrite' else []) + [self.src]
+                args = cli_flag + [entry] + (['--overwrite'] if dest == 'overwrite' else []) + [self.src]
                 rcode = tool.main(args)
                 return rcode != 0, rcode
-            args = ['build', self.dest, '--lua', self.lua, '--gfx', self.gfxsrc]
+            args = cli_flag + ['build', self.dest, '--lua', self.lua, '--gfx', self.gfxsrc]
             if writer == 'minify':
                 args.append('--lua-minify')
             rcode = tool.main(args)
@@ -342,7 +362,7 @@ def label_marking():
 
 
 def run_config_source(cfg, source, res):
-    entry, fmt, dest, writer = cfg
+    entry, fmt, dest, writer = cfg[:4]
     env = Env(cfg)
     P8, marked, original = label_marking()
     P8.to_file = marked
